@@ -39,12 +39,13 @@ import (
 	"github.com/tikv/pd/pkg/mock/mockcluster"
 	"github.com/tikv/pd/server/schedule/operator"
 	"github.com/tikv/pd/server/schedule/placement"
+	"pdverif/livesrv"
 	"pdverif/simkit"
 	"pdverif/vkit"
 	"pgregory.net/rapid"
 )
 
-func TestMain(m *testing.M)   { vkit.Quiet(); vkit.Main(m, "C11") }
+func TestMain(m *testing.M)   { vkit.Quiet(); vkit.MainWith(m, "C11", livesrv.Shutdown) }
 func TestProp(t *testing.T)   { vkit.RunAll(t) }
 func TestReplay(t *testing.T) { vkit.RunReplay(t) }
 
